@@ -56,6 +56,7 @@ let os_cpu = ref 0
 let os_maxnodes = ref 64
 let os_pm_unsupported = ref false
 let os_affproc : bset option ref = ref None
+let parked = ref false   (* the harness started its second (parked) thread: first stcbo / gtcbo of the process *)
 let nbprocs = ref 16
 let kret name = match Stdlib.Hashtbl.find_opt os_ret name with Some (rc, e) when rc < 0 -> Some (rc, e) | _ -> None
 let kres ?(rc = 0) ?(e = E0) ?(set = { fin = N0; inf = false }) ?(mode = 0) ?(l = []) () =
@@ -64,10 +65,10 @@ let answer name ok = match kret name with Some (rc, e) -> kres ~rc ~e () | None 
 let scripted_kernel (c : kcall) () =
   let r = match c with
     | K_setaffinity (_, _) -> answer "setaffinity" (fun () -> kres ())
-    | K_getaffinity _ -> answer "getaffinity" (fun () -> kres ~set:!os_aff ())
+    | K_getaffinity w -> answer "getaffinity" (fun () -> kres ~set:(if int_of_z w = 0 then !os_aff else (match !os_affproc with Some p -> p | None -> !os_aff)) ())
     | K_getcpu -> answer "getcpu" (fun () -> kres ~rc:!os_cpu ())
     | K_lastcpu _ -> kres ~set:{ fin = n_of_int 1; inf = false } ()
-    | K_tasklist _ -> kres ~l:[z_of_int 1] ()
+    | K_tasklist _ -> kres ~l:(if !parked then [z_of_int 1; z_of_int 2] else [z_of_int 1]) ()   (* /proc/<pid>/task: main thread, parked worker *)
     | K_set_mempolicy (m, _, _) -> if !os_pm_unsupported && int_of_z m = 5 then kres ~rc:(-1) ~e:EINVAL () else answer "set_mempolicy" (fun () -> kres ())
     | K_mbind (_, m, _, _, _) -> if !os_pm_unsupported && int_of_z m = 5 then kres ~rc:(-1) ~e:EINVAL () else answer "mbind" (fun () -> kres ())
     | K_migrate_pages (_, _, _) -> answer "migrate_pages" (fun () -> kres ())
@@ -212,6 +213,8 @@ let () =
      | ["gpcb"; w; f] -> call (A_get_proc_cpubind (who_of w, fl f))
      | ["stcb"; s; f] -> call (A_set_thread_cpubind (z_of_int 1, bs s, fl f))
      | ["gtcb"; f] -> call (A_get_thread_cpubind (z_of_int 1, fl f))
+     | ["stcbo"; s; f] -> parked := true; call (A_set_thread_cpubind (z_of_int 2, bs s, fl f))
+     | ["gtcbo"; f] -> parked := true; call (A_get_thread_cpubind (z_of_int 2, fl f))
      | ["glcl"; f] -> call (A_get_last_cpu_location (fl f))
      | ["gplcl"; w; f] -> call (A_get_proc_last_cpu_location (who_of w, fl f))
      | ["smb"; s; p; f] -> call (A_set_membind (bs s, z p, fl f))
